@@ -28,10 +28,22 @@ CHECKS["C16"] = dict(
          "exhaustive to depth 3 (quick) / 4 (thorough) plus seeded chains to length 14.",
     design_ref="5/C16", engine="DataModel")
 
+CHECKS["C17"] = dict(
+    category="model_checking",
+    technique="TLA+ contract operators + notify-loop model checked in TLC for every bounded registry; trace validation of exhaustive register/notify trees on the real EventManager",
+    text="TLC checks the notify loop against the contract (which handlers, in which order, what each sees, where dispatch stops, "
+         "which flags come back) for every registry of <=2-3 handlers over the full return alphabet; the same contract operators judge "
+         "every notify of exhaustively enumerated registration trees executed on the real EventManager with recording stubs.",
+    note="Trusts TLC/Json and the stub handlers; None counts as processed for data hand-off (code and default handlers rely on it); "
+         "two event kinds without default handlers; <=4 handlers.",
+    design_ref="5/C17", engine="EventManager")
+
 NOT_YET = {
 }
 
 ENGINES = [
+    dict(name="EventManager", path="specs/EventManager.tla specs/EventManagerTrace.tla harness/c17.py harness/drive_c17.py",
+         serves_properties=["C17"], kind_free_text="TLA+ contract + loop model + trace spec, TLC"),
     dict(name="DataModel", path="specs/DataModel.tla specs/DataModelImpl.tla specs/DataModelTrace.tla harness/c16.py harness/drive_c16.py",
          serves_properties=["C16"], kind_free_text="TLA+ contract + cache model + trace spec, TLC"),
     dict(name="PathStore", path="specs/PathStore.tla specs/PathTrieImpl.tla specs/PathStoreTrace.tla harness/c19.py harness/drive_c19.py",
